@@ -3,11 +3,17 @@
 # Evidence files and replays of /verif are saved and restored, so a seeded run leaves no trace.
 P="$1"; shift
 IDS="$@"; [ -z "$IDS" ] && IDS="C01 C02 C03 C04 C05 C06 C07 C08 C09 C10 C11 C12 C13 C14 C15 C16 C17 C18"
-cd /verif
+# the checks run from a snapshot of the committed /verif (so that edits in progress cannot disturb them, and
+# the evidence files of /verif are not touched)
+SNAP=/tmp/seedverif
+if [ -z "$SEED_KEEP_SNAPSHOT" ] || [ ! -d "$SNAP" ]; then
+  rm -rf "$SNAP"; mkdir -p "$SNAP"; git -C /verif archive HEAD | tar -x -C "$SNAP"
+fi
+export VERIF_DIR="$SNAP"
+cd "$SNAP"
 [ -z "$(git -C /repo status --porcelain)" ] || { echo "/repo is not clean"; exit 3; }
-SAVE=$(mktemp -d /tmp/evsave.XXXXXX); cp -r evidence "$SAVE/"; 
-git -C /repo apply "$P" || { echo "patch does not apply"; rm -rf "$SAVE"; exit 3; }
-trap 'git -C /repo checkout -- . ; git -C /repo clean -fdq; rm -rf /verif/evidence; cp -r "$SAVE/evidence" /verif/evidence; rm -rf "$SAVE"' EXIT
+git -C /repo apply "$P" || { echo "patch does not apply"; exit 3; }
+trap 'git -C /repo checkout -- . ; git -C /repo clean -fdq' EXIT
 CAUGHT=""
 for id in $IDS; do
   out=$(./check.sh $id quick 2>&1); rc=$?
